@@ -789,6 +789,7 @@ pub fn c01() -> RenderProp {
                 p_inherits: 25,
                 max_pieces: 10,
                 max_comp_depth: 5,
+                stray_lt: true,
                 ..GenCfg::default()
             };
             match t.weighted(&[7, 1, 1]) {
